@@ -65,6 +65,11 @@ def i1_invariant(sim, vp, op, path):
 
 def gen_command(rng, dflt, keys, merge_files):
     cmd = _gen_command(rng, dflt, keys, merge_files)
+    if cmd["cmd"] == "config" and cmd["argv"][0] == "set" and (
+            rng.random() < 0.12):
+        # the package settings named explicitly, in a non-canonical spelling
+        cmd["argv"] = ["set", "-c", rng.choice(sg.SETTINGS_ALIASES)
+                       ] + cmd["argv"][1:]
     if cmd["cmd"] == "config" and rng.random() < 0.85:
         # skip the (expensive, irrelevant) pygments colouring most of the time
         cmd["argv"] = [cmd["argv"][0], "--no_color"] + cmd["argv"][1:]
@@ -526,6 +531,14 @@ class C19(Check):
                       [{"cmd": "config",
                         "argv": ["set", "-m", other, "--soft",
                                  "plot_split"]}]))
+        w.append(("set_via_alias:current", cur,
+                  [{"cmd": "config",
+                    "argv": ["set", "-c", sg.SETTINGS_ALIASES[0],
+                             "plot_linewidth", "2", "plot_usetex"]}]))
+        w.append(("merge_via_alias:current", merge_init,
+                  [{"cmd": "config",
+                    "argv": ["set", "-c", sg.SETTINGS_ALIASES[1], "-m",
+                             other]}]))
         w.append(("set_then_reset:current", cur,
                   [{"cmd": "config", "argv": ["set", "plot_split"]},
                    {"cmd": "config", "argv": ["reset", "plot_split"]}]))
